@@ -191,7 +191,7 @@ def gen_g(r, name):
 # ------------------------------------------------------------------ corpus-derived family (D)
 
 _SIMPLE_T = re.compile(r"^(bool|Qint\[\d+\]|Qint\d+|Tuple\[.*\]|Qlist\[.*\])$")
-D_POOL = [p for p in progs.OK if 1 <= p["nargs"] <= 4 and p["in_bits"] <= 8 and p["t"] <= 0.05 and all(t and _SIMPLE_T.match(t) and "Qfixed" not in t and "Qchar" not in t and "Qmatrix" not in t for _, t in p["argsig"])]
+D_POOL = [p for p in progs.OK if 1 <= p["nargs"] <= 4 and p["in_bits"] <= 8 and p["t"] <= 0.05 and p.get("out_bits", 1) <= 8 and "**" not in p["src"] and all(t and _SIMPLE_T.match(t) and "Qfixed" not in t and "Qchar" not in t and "Qmatrix" not in t for _, t in p["argsig"])]
 
 
 def _stored_names(fd):
